@@ -252,6 +252,17 @@ func fuzzSeeds() [][]byte {
 			add(specOf([]string{n}, []gen.O{p}, encodeWith(f, data), nil, 0x40))
 		}
 	}
+	// LZW streams which fill the 12-bit table and keep using it
+	for _, early := range []bool{true, false} {
+		lz := pdf.FilterLZW{OffByOne: early}
+		n, p := infoOf(lz)
+		for size := 16000; size >= 6000; size -= 1000 {
+			if b := lzwFullTable(payload(3, size, 5), early, 0, true); len(b) <= fuzzMaxBody {
+				add(specOf([]string{n}, []gen.O{p}, b, nil, 0x40))
+				break
+			}
+		}
+	}
 	// chains
 	fl := pdf.FilterFlate{}
 	add(specOf([]string{"ASCII85Decode", "FlateDecode"}, nil, encodeWith(pdf.FilterASCII85{}, encodeWith(fl, text)), nil, 0))
